@@ -12,6 +12,11 @@ from .ops import lift, truth, vget, vset, binop, unary, scalar_compare, ite_val,
 from .extract import RepoFunc, RepoClass, Module, Loader
 
 
+def _BASE_APPLY():
+    from .verify import Contract
+    return Contract.apply
+
+
 class ReturnEx(Exception):
     def __init__(self, value):
         self.value = value
@@ -452,8 +457,11 @@ class Interp:
 
     def call_repo(self, func: RepoFunc, args, kwargs, closure=None, as_root=False):
         if not as_root and func.qualname in self.contracts and func.qualname != self.root:
-            self.stats["contracts_applied"].append(func.qualname)
-            return self.contracts[func.qualname].apply(self, func, list(args), dict(kwargs))
+            c = self.contracts[func.qualname]
+            if type(c).apply is not _BASE_APPLY():
+                self.stats["contracts_applied"].append(func.qualname)
+                return c.apply(self, func, list(args), dict(kwargs))
+            # the contract gives no call-site summary: the callee body is inlined (and is verified on its own as well)
         if "abstractmethod" in func.decorators:
             pass
         for d in func.decorators:
